@@ -176,3 +176,44 @@ mutant('C08-R4-zero-write-busy-loop', ['C08'], ['C08.R4|flush|zero-write'],
                 }
 ''', '''                let _ = n;
 ''')])
+
+# ---------------------------------------------------------------- C14
+mutant('C14-R2-apply-before-ack', ['C14'], ['C14.R2|apply-after-ack'],
+       'the peer settings are applied before the codec was ready for the ACK (applied again on every retry, ACK may lag)',
+       [('src/proto/settings.rs', '''        if let Some(settings) = self.remote.clone() {
+            if !dst.poll_ready(cx)?.is_ready() {
+                return Poll::Pending;
+            }
+''', '''        if let Some(settings) = self.remote.clone() {
+            if let Some(val) = settings.max_frame_size() {
+                dst.set_max_send_frame_size(val as usize);
+            }
+            if !dst.poll_ready(cx)?.is_ready() {
+                return Poll::Pending;
+            }
+'''), ('src/proto/settings.rs', '''            if let Some(val) = settings.max_frame_size() {
+                dst.set_max_send_frame_size(val as usize);
+            }
+        }
+
+        self.remote = None;''', '''        }
+
+        self.remote = None;''')])
+mutant('C14-R4-local-settings-applied-on-send', ['C14'], ['C14.R4|who|apply_local_settings'],
+       'local settings are enforced against the peer as soon as they are sent, not at its ACK',
+       [('src/proto/settings.rs', '''                self.local = Local::WaitingAck(settings.clone());''', '''                streams.apply_local_settings(settings)?;
+                self.local = Local::WaitingAck(settings.clone());''')])
+mutant('C14-R5-stray-ack-tolerated', ['C14'], ['C14.R5|stray-ack'],
+       'an unexpected SETTINGS ACK is ignored instead of being a connection error',
+       [('src/proto/settings.rs', '''                    proto_err!(conn: "received unexpected settings ack");
+                    Err(Error::library_go_away(Reason::PROTOCOL_ERROR))''', '''                    Ok(())''')])
+mutant('C14-R6-pong-wrong-payload', ['C14'], ['C14.R6|send'],
+       'the PONG carries a fixed payload instead of the one received',
+       [('src/proto/ping_pong.rs', '''            dst.buffer(Ping::pong(pong).into())''', '''            let _ = pong;
+            dst.buffer(Ping::pong(Ping::USER).into())''')])
+mutant('C14-R3-max-frame-size-not-applied', ['C14'], ['C14.R2|apply|sites', 'C14.R3'],
+       'the peer MAX_FRAME_SIZE is acknowledged but never applied to the encoder',
+       [('src/proto/settings.rs', '''            if let Some(val) = settings.max_frame_size() {
+                dst.set_max_send_frame_size(val as usize);
+            }
+''', '')])
